@@ -47,30 +47,76 @@ def encoder_values(S, st, kind, N):
 
 
 def clause_repr(R, N, w, rule="C05-repr"):
-    """every polynomial gen_b0 hands out fits the encoder's field widths `w` and avoids the reserved pattern (ntru_gen opaque)"""
-    sk = skeleton.session()
-    gb = sk.find(f"falcon::SecretKey::<{N}>::gen_b0")
-    saved = sk.ctx.no_inline
-    sk.ctx.no_inline = lambda i: i.name == "falcon_rust::math::ntru_gen" or saved(i)
-    st = St()
-    u8 = sk.ty("u8")
-    seed = Sq(sk.ctx.top_int(st, u8, taint=True), sk.ctx.const_int(st, 32, sk.ctx.usize_ty()))
-    outs = sk.run(gb, [seed], st)
+    """every polynomial gen_b0 hands out fits the encoder's field widths `w` and avoids the reserved pattern.
+    ntru_gen is opaque: first as four polynomials of unknown length with one summarised coefficient each (sound for every
+    length; decides the `iter().all(..)` spelling of the range guard); if that run cannot bound the coefficients, as four
+    polynomials of K = 4 individually named arbitrary i16 coefficients, on which a guard written as a loop with an early
+    return refines each coefficient on the path that continues (the guard is element-wise, so K coefficients stand for N)."""
+    lim = [(1 << (w[1] - 1)) - 1, (1 << (w[0] - 1)) - 1, (1 << (w[2] - 1)) - 1, (1 << (w[2] - 1)) - 1]   # b0 = [g, -f, G, -F]
+    names = ["g", "-f", "G", "-F"]
     site = f"gen_b0::<{N}>"
-    if not outs or type(outs[0][0]) is not Sq or not outs[0][0].head or len(outs[0][0].head) != 4:
-        R.violation(rule, site, "could not determine the four returned polynomials", key=f"repr|{N}")
-    else:
+    K = 4
+
+    def attempt(exact):
+        sk = skeleton.session()
+        gb = sk.find(f"falcon::SecretKey::<{N}>::gen_b0")
+        i16, usz = sk.ty("i16"), sk.ctx.usize_ty()
+        if exact:
+            def m_ntru_gen(E, st, fr, bi, callee, args, dest_ty):
+                def pol():
+                    heads = {i: sk.ctx.top_int(st, i16, taint=True) for i in range(K)}
+                    return Ag((Sq(sk.ctx.top_int(st, i16, taint=True), sk.ctx.const_int(st, K, usz), heads),))
+                return [(Ag(tuple(pol() for _ in range(4))), st)]
+            import re
+            sk.ctx.models.table[:0] = [(re.compile(r"^falcon_rust::math::ntru_gen$"), m_ntru_gen)]
+            sk.ctx.models.cache.clear()
+            sk.ctx.hooks["exact_collect_max"] = 8
+            sk.ctx.hooks["exact_anyall"] = True
+            sk.ctx.hooks["unroll"] = lambda fr, h: 8 if fr.inst.local else 0
+            sk.ctx.hooks["split_bool_ret"] = lambda inst: inst.local        # `true` and `false` returns of a predicate helper stay apart
+        else:
+            saved = sk.ctx.no_inline
+            sk.ctx.no_inline = lambda i: i.name == "falcon_rust::math::ntru_gen" or saved(i)
+        st = St()
+        u8 = sk.ty("u8")
+        seed = Sq(sk.ctx.top_int(st, u8, taint=True), sk.ctx.const_int(st, 32, sk.ctx.usize_ty()))
+        outs = sk.run(gb, [seed], st)
+        import os
+        if os.environ.get("DBG_C05"):
+            print("exact", exact, "models", sk.ctx.models_used, "unmodelled", list(sk.ctx.unmodelled)[:6], "unsupported", sk.unsupported[:4])
+            print([str(o[0])[:300] for o in outs])
+        if not outs or type(outs[0][0]) is not Sq or not outs[0][0].head or len(outs[0][0].head) != 4:
+            return None
         r, rst = outs[0]
-        lim = [(1 << (w[1] - 1)) - 1, (1 << (w[0] - 1)) - 1, (1 << (w[2] - 1)) - 1, (1 << (w[2] - 1)) - 1]   # b0 = [g, -f, G, -F]
-        names = ["g", "-f", "G", "-F"]
+        rngs = []
         for i in range(4):
             pol = r.head[i]
-            e = pol.f[0].elem if type(pol) is Ag and type(pol.f[0]) is Sq else None
-            rng = rst.itv[e.vid] if type(e) is I else None
-            R.check(rng is not None and -lim[i] <= rng[0] and rng[1] <= lim[i], rule, f"{site} b0[{i}] = {names[i]}",
-                    f"coefficients within [{-lim[i]},{lim[i]}] (range {rng}): encodable in the field width and never the reserved pattern",
-                    f"coefficients may lie in {rng}, outside [{-lim[i]},{lim[i]}]: such a key is not representable in the fixed-width format (or hits the reserved pattern)",
-                    key=f"repr|{N}|{i}", data={"range": rng, "limit": lim[i]})
+            sq = pol.f[0] if type(pol) is Ag and type(pol.f[0]) is Sq else None
+            if sq is None:
+                rngs.append(None)
+                continue
+            vals = list(sq.head.values()) if (exact and sq.head and len(sq.head) == rst.const(sq.len)) else [sq.elem]
+            if not all(type(v) is I for v in vals):
+                rngs.append(None)
+                continue
+            rngs.append((min(rst.itv[v.vid][0] for v in vals), max(rst.itv[v.vid][1] for v in vals)))
+        return rngs
+    rngs = attempt(False)
+    how = "summarised coefficients, any length"
+    good = lambda rr: rr is not None and all(x is not None and -lim[i] <= x[0] and x[1] <= lim[i] for i, x in enumerate(rr))
+    if not good(rngs):
+        r2 = attempt(True)
+        if good(r2):
+            rngs, how = r2, f"{K} individually named coefficients per polynomial"
+    if rngs is None:
+        R.violation(rule, site, "could not determine the four returned polynomials", key=f"repr|{N}")
+        return
+    for i in range(4):
+        rng = rngs[i]
+        R.check(rng is not None and -lim[i] <= rng[0] and rng[1] <= lim[i], rule, f"{site} b0[{i}] = {names[i]}",
+                f"coefficients within [{-lim[i]},{lim[i]}] (range {rng}; {how}): encodable in the field width and never the reserved pattern",
+                f"coefficients may lie in {rng}, outside [{-lim[i]},{lim[i]}]: such a key is not representable in the fixed-width format (or hits the reserved pattern)",
+                key=f"repr|{N}|{i}", data={"range": rng, "limit": lim[i]})
 
 
 def run(R):
